@@ -78,7 +78,15 @@ def explore_cfg(acc, spec, bound):
         if env.deviations():
             acc.add('nontrivial', (spec.kind, spec.request, spec.retries, spec.roe, spec.roi, tuple(env.choices)))
         judge(acc, spec, env, recs, hang)
-    st = choice.explore(run, bound, horizon=400, on_exec=on_exec)
+    try:
+        st = choice.explore(run, bound, horizon=400, on_exec=on_exec)
+    except choice.ReplayDivergence as e:
+        # the same environment answers did not lead to the same execution: a FRESH client object behaved
+        # differently because of what earlier client objects of this process did (state kept outside the client)
+        acc.violation('C13/%s/r%d/roe%d/roi%d/state-carried-over/none' % (spec.kind, spec.retries, spec.roe, spec.roi),
+                      dict(client=spec.kind, request=spec.request, retries=spec.retries, roe=spec.roe, roi=spec.roi, diverged=str(e)[:120]),
+                      'a fresh client did not repeat the execution it showed for the same environment answers: %s' % e, spec.kind)
+        return dict(executions=0, points=0)
     acc.inc('executions', st['executions'])
     acc.inc('choice_points', st['points'])
     return st
@@ -152,6 +160,10 @@ def run(tier, seed):
 
 
 def replay(w):
+    if 'diverged' in w:
+        a2 = shard((w['client'], w['request'], 'quick'))
+        vs = [v for v in a2.violations if 'diverged' in v['witness']]
+        return bool(vs), '\n'.join(v['msg'] for v in vs) or 'no divergence this time'
     acc = Acc()
     if 'fillers' in w:
         retry_contract(acc, w['client'], w['request'], w['retries'], w['which'])
